@@ -8,6 +8,8 @@ document, carry no explicit tag, and equal the documented projection
 import yaml
 from hypothesis import strategies as st
 
+import yatiml
+
 from yv import gen, models, proj
 from yv.common import canon, exc_signature, is_gen_obj
 from yv.runner import HypPhase
@@ -45,7 +47,10 @@ def cases(draw):
         # no instantiable class for the document type: dump plain data instead
         spec = dict(spec, doc_type='any')
         v = draw(gen.vspec_for(spec, 'any', hard=True))
-    return {'model': spec, 'value': v, 'share': draw(st.integers(0, 5)) == 0}
+    return {'model': spec, 'value': v, 'share': draw(st.integers(0, 5)) == 0,
+            'json': draw(st.sampled_from([None, None, 'plain', 'after_failure',
+                                          'after_failure_elsewhere'])),
+            'indent': draw(st.sampled_from([None, None, 2, 4]))}
 
 
 def snapshot(v, seen=None):
@@ -175,6 +180,77 @@ def check(case, ctx):
     if not proj.plain_eq(_norm(got), _norm(want)):
         ctx.finding('content', 'content_differs',
                     'a plain parser reads\n    %r\n  the projection is\n    %r\n  text: %r\n  %s'
+                    % (got, want, text, desc()))
+        return
+    if case.get('json'):
+        check_json_flavour(case, ctx, m, value, desc)
+
+
+def simple_for_json(p):
+    import math
+    if isinstance(p, dict):
+        return all(simple_for_json(k) and simple_for_json(v) for k, v in p.items())
+    if isinstance(p, list):
+        return all(simple_for_json(x) for x in p)
+    if isinstance(p, str):
+        return all(0x20 <= ord(ch) < 0x7f for ch in p)
+    if isinstance(p, float):
+        return math.isfinite(p)
+    return True
+
+
+def check_json_flavour(case, ctx, m, value, desc):
+    """The JSON dump functions are dump functions too: their text is (also) one
+    well-formed, tag-free YAML document equal to the projection with dates as
+    strings - whatever was dumped before, successfully or not."""
+    try:
+        want = proj.Projector(m, json=True).project(value)
+    except proj.Ambiguous:
+        return
+    if not simple_for_json(want) or case.get('share'):
+        ctx.count('json_flavour_skipped')
+        return
+    dumps = m.dumps_json
+    pre = case.get('json')
+    if pre in ('after_failure', 'after_failure_elsewhere'):
+        shared = [1, 'x']
+        fn = dumps if pre == 'after_failure' else yatiml.dumps_json_function()
+        try:
+            fn({'k': [shared, {'again': shared}]})
+        except RuntimeError:
+            ctx.count('json_prelude_failed_as_expected')
+        except Exception:
+            pass
+    try:
+        text = dumps(value, indent=case.get('indent'))
+        text2 = dumps(value, indent=case.get('indent'))
+    except Exception as e:
+        ctx.finding('dump', 'json_raises:' + exc_signature(e),
+                    'dumps_json raised %s: %s\n  %s' % (type(e).__name__, e, desc()))
+        return
+    ctx.count('json_flavour_checked')
+    if text != text2:
+        ctx.finding('determinism', 'json_second_dump_differs',
+                    'two JSON dumps differ\n  %r\n  %r\n  %s' % (text, text2, desc()))
+        return
+    try:
+        docs = list(yaml.compose_all(text, Loader=yaml.SafeLoader))
+        tags = [ev.tag for ev in yaml.parse(text, Loader=yaml.SafeLoader)
+                if isinstance(ev, (yaml.ScalarEvent, yaml.SequenceStartEvent, yaml.MappingStartEvent))
+                and ev.tag is not None]
+        got = yaml.safe_load(text)
+    except yaml.YAMLError as e:
+        ctx.finding('wellformed', 'json_not_parseable',
+                    'the JSON dump is not a well-formed document: %s\n  text: %r\n  %s' % (e, text, desc()))
+        return
+    if len(docs) != 1 or tags:
+        ctx.finding('wellformed', 'json_documents_or_tags',
+                    'the JSON dump holds %d documents, explicit tags %s\n  text: %r\n  %s'
+                    % (len(docs), tags[:3], text, desc()))
+        return
+    if not proj.plain_eq(_norm(got), _norm(want)):
+        ctx.finding('content', 'json_content_differs',
+                    'a plain parser reads %r from the JSON dump, the projection is %r\n  text: %r\n  %s'
                     % (got, want, text, desc()))
 
 
